@@ -179,7 +179,7 @@ func c11Blobs(c *fw.Ctx, g *c11Gen, ct c11Codec, k c11Consts, modelled bool, mod
 
 // c11NormaliseDeep re-establishes the normal form of every struct on the way down.
 func c11NormaliseDeep(g *c11Gen, v reflect.Value, depth int) {
-	if depth > 6 {
+	if depth > 12 {
 		return
 	}
 	switch v.Kind() {
@@ -201,7 +201,7 @@ func c11NormaliseDeep(g *c11Gen, v reflect.Value, depth int) {
 		}
 	case reflect.Slice:
 		if v.Type().Elem().Kind() == reflect.Struct {
-			for i := 0; i < v.Len() && i < 4; i++ {
+			for i := 0; i < v.Len(); i++ {
 				c11NormaliseDeep(g, v.Index(i), depth+1)
 			}
 		}
